@@ -13,6 +13,12 @@ namespace KeepVerif.C17
     `racy_double_retransmit`, `racy_lost_forever`.) -/
 theorem tie : Gen.C17.backoffTickLocked = true := by decide
 
+/-- T1 tie: `Ticker.start` (tick loop *and* the teardown after the ticks channel is closed) and
+    `Ticker.onTick` touch the handler map only under `handlersMutex`, so `tickerStep` is an atomic
+    step w.r.t. registrations.  (False on the unchanged tree: the teardown loop ran unlocked —
+    second `fix:`; the harness op `teardown <n>` replays it under the race detector.) -/
+theorem tie_ticker : Gen.C17.tickerHandlersLocked = true := by decide
+
 /-- T1 tie: `WithBackoffStrategy()` starts at `(0, 1, 1)`. -/
 theorem init_eq : init = ⟨0, 1, 1⟩ := by decide
 
